@@ -346,6 +346,9 @@ func judge(c *Case, obs []CallObs, res *lib.Result) {
 		badAny := false
 		whyAny := ""
 		designated, nestedDesignated, hasCb := false, false, false
+		if len(cl.Pass) == 0 {
+			tags["call:no-options"] = true
+		}
 		for _, j := range cl.Pass {
 			if j >= 0 && j < len(cl.Script) {
 				root := j
